@@ -286,7 +286,8 @@ def run_check(tier, seed, replay=None):
         "exhaustive_part": "MC_EpochsContext: every interleaving of reveals, exits, slashings, deposits and epoch boundaries "
                            "(activation / balance change / sync rotation / upgrade) within the bound",
     }
-    lib.write_evidence(PID, tier, seed, cov, lib.elapsed() - t0, violations=len(violations),
+    if not replay:   # a replay must not replace the evidence of a tier run
+        lib.write_evidence(PID, tier, seed, cov, lib.elapsed() - t0, violations=len(violations),
                        assumptions=["TLC, SANY, CommunityModules Json", "harness/chain block production",
                                     "harness/cmd/epc projection of EpochsContext and of the registry",
                                     "shuffling order / proposer selection are uninterpreted here (C06/C07)"])
